@@ -42,12 +42,12 @@ Section MsOpt.
     c_init : list msev;
     c_events : list msev }.
 
-  (* events.sort(key=t): stable, ascending *)
+  (* events.sort(key=t): stable, ascending (fold_right inserts from the right, so an element goes
+     before the already placed elements of equal time) *)
   Fixpoint insert_ev (e : msev) (l : list msev) : list msev :=
     match l with
     | [] => [e]
-    | f :: l' => if nlt (ev_time f) (ev_time e) || neqb (ev_time f) (ev_time e)
-                 then f :: insert_ev e l' else e :: l
+    | f :: l' => if nlt (ev_time f) (ev_time e) then f :: insert_ev e l' else e :: l
     end.
   Definition sort_events (l : list msev) : list msev := fold_right insert_ev [] l.
 End MsOpt.
